@@ -400,7 +400,7 @@ func c03gCandidates(c *eng.Ctx) {
 func c03gExpiry(c *eng.Ctx) {
 	if f := c.Fn("policy.NewACL"); f != nil {
 		c.Clause("R2", "C03.10")
-		sinks := instrsOf(eng.Calls(f, `go-radix\.Tree\)\.Insert$`))
+		sinks := gcIns(f, `go-radix\.Tree\)\.Insert$`)
 		for _, in := range eng.Instrs(f, func(in ssa.Instruction) bool {
 			mu, ok := in.(*ssa.MapUpdate)
 			return ok && strings.HasSuffix(eng.Expr(mu.Map), ".segmentWildcardPaths")
@@ -602,6 +602,10 @@ func c03gParser(c *eng.Ctx) {
 		sort.Strings(caps)
 		got[m[1]] = caps
 	}
+	if len(got) == 0 {
+		c.Undecided(f, "legacy policy table", f.Pos(), "no arm testing pc.Policy against a constant in parsePaths: moved? the rule cannot be evaluated")
+		return
+	}
 	var names []string
 	for k := range want {
 		names = append(names, k)
@@ -639,7 +643,7 @@ func c03gStoreACL(c *eng.Ctx) {
 	if !c.Floor(f, "GetPolicy calls", len(gets), 1) {
 		return
 	}
-	build := instrsOf(eng.Calls(f, `^policy\.NewACL$`))
+	build := gcIns(f, `^policy\.NewACL$`)
 	c.Floor(f, "NewACL call", len(build), 1)
 	for _, g := range gets {
 		a := g.Common().Args
@@ -791,34 +795,40 @@ func c03gListFilter(c *eng.Ctx) {
 			keep = append(keep, ap)
 		}
 	}
-	checks := eng.Calls(f, `vault\.\(\*Core\)\.performPolicyChecks$`)
+	ppc := `vault\.\(\*Core\)\.performPolicyChecks$`
+	checks := gcEffs(f, ppc)
 	if !c.Floor(f, "append to filteredKeys", len(keep), 1) || !c.Floor(f, "per-key policy check", len(checks), 1) {
 		return
 	}
 	c.Clause("R2", "C03.16")
-	c.Cut(f, "key kept in the filtered list", keep, eng.G(f, `^vault\.\(\*Core\)\.performPolicyChecks\(\)\.Allowed$`, true), nil)
+	c.Cut(f, "key kept in the filtered list", keep, eng.Guard{Desc: "[performPolicyChecks().Allowed]=true",
+		Edges: gcFwdCondEdges(f, gcFieldOfCall(ppc, "Allowed"), true)}, nil)
 	c.Clause("R5", "C03.16")
-	for _, pc := range checks {
-		a := pc.Common().Args
-		c.Prov(f, "ACL judging the keys", pc, a[2], `^param:acl$`)
-		c.Prov(f, "token entry judging the keys", pc, a[3], `^param:te$`)
-		for _, v := range eng.StructLitField(a[4], "Path") {
-			c.Prov(f, "path checked per key", pc, v, `^call:helper/template\.UseTemplateForFiltering#0$`)
+	for _, e := range checks {
+		a, pc := gcArgs(e), e.Call.In
+		gcProv(c, f, "ACL judging the keys", pc, a[2], e.Fr, `^param:acl$`)
+		gcProv(c, f, "token entry judging the keys", pc, a[3], e.Fr, `^param:te$`)
+		paths := gcLitField(a[4], e.Fr, "Path")
+		if len(paths) == 0 {
+			c.Undecided(f, "prov{path checked per key}", pc.Pos(), "the request handed to the per-key policy check is not built where the rule can see it (in place, or in a closure / same-package helper returning the literal): moved? the rule cannot be evaluated")
+		}
+		for _, v := range paths {
+			gcProv(c, f, "path checked per key", pc, v.V, v.Fr, `^call:helper/template\.UseTemplateForFiltering#0$`)
 		}
 		opts := a[len(a)-1]
-		rp := eng.StructLitField(opts, "RootPrivsRequired")
+		rp := gcLitField(opts, e.Fr, "RootPrivsRequired")
 		if len(rp) == 0 {
 			c.Violation(f, "prov{sudo requirement of the per-key check}", pc.Pos(), "CheckOpts.RootPrivsRequired is left at its zero value: root-protected paths would pass without sudo", nil)
 		}
 		for _, v := range rp {
-			c.Prov(f, "sudo requirement of the per-key check", pc, v, `^call:routing\.\(\*Router\)\.RootPath$`)
+			gcProv(c, f, "sudo requirement of the per-key check", pc, v.V, v.Fr, `^call:routing\.\(\*Router\)\.RootPath$`)
 		}
-		un := eng.StructLitField(opts, "Unauth")
+		un := gcLitField(opts, e.Fr, "Unauth")
 		if len(un) == 0 {
 			c.Violation(f, "prov{unauth flag of the per-key check}", pc.Pos(), "CheckOpts.Unauth is left at its zero value", nil)
 		}
 		for _, v := range un {
-			c.Prov(f, "unauth flag of the per-key check", pc, v, `^param:unauth$`)
+			gcProv(c, f, "unauth flag of the per-key check", pc, v.V, v.Fr, `^param:unauth$`)
 		}
 	}
 	// what is written back
@@ -985,7 +995,7 @@ func c03gCloneOwnership(c *eng.Ctx, clause string) {
 	if f := c.Fn("policy.NewACL"); f != nil {
 		c.Clause("R5", clause)
 		acc := `^φraw\{.*\}\.\(\*policy\.ACLPermissions\)\.`
-		sinks := instrsOf(eng.Calls(f, `go-radix\.Tree\)\.Insert$`))
+		sinks := gcIns(f, `go-radix\.Tree\)\.Insert$`)
 		for _, in := range eng.Instrs(f, func(in ssa.Instruction) bool {
 			mu, ok := in.(*ssa.MapUpdate)
 			return ok && strings.HasSuffix(eng.Expr(mu.Map), ".segmentWildcardPaths")
@@ -1028,5 +1038,184 @@ func c03gCloneOwnership(c *eng.Ctx, clause string) {
 			}
 		}
 		c.Floor(f, "stores to slice-typed fields of the accumulated entry", n, 3)
+	}
+}
+
+// ---------------------------------------------------------------------------
+// General site-location helpers (ROBUST.md, second pass). Built on the nf*
+// helpers of c04follow.go; used by the C03 and C07 tables.
+
+// gcSites: "the calls of T in f": direct calls, calls through a bound method
+// value, and calls of a closure of f / a function of the same package on every
+// normal return of which T has been called (one level). Each site is an
+// instruction of f; Effs are the underlying calls with the frame needed to read
+// their arguments back in f's terms.
+func gcSites(f *ssa.Function, pat string) []nfSite { return nfMust(f, nil, nfNamed(pat), 1) }
+
+// gcIns: the instructions of those sites (drop-in for instrsOf(eng.Calls(f, pat))).
+func gcIns(f *ssa.Function, pat string) []ssa.Instruction { return nfAts(gcSites(f, pat)) }
+
+// gcEffs: the underlying calls behind the sites.
+func gcEffs(f *ssa.Function, pat string) []nfEff { return nfEffs(gcSites(f, pat)) }
+
+// gcArgs: the arguments of an effect call in the layout of a direct call
+// (receiver first for a concrete method, no receiver for an interface method).
+func gcArgs(e nfEff) []ssa.Value {
+	a := e.Call.Args
+	if len(a) > len(e.Call.In.Common().Args) && len(a) > 0 {
+		// bound method value: drop the receiver again when the method is an interface method
+		if _, isIface := a[0].Type().Underlying().(*types.Interface); isIface {
+			return a[1:]
+		}
+	}
+	return a
+}
+
+// gcProv is Ctx.Prov with origins followed through captured variables and,
+// along the frame, through parameters of the closure / helper the value lives in.
+func gcProv(c *eng.Ctx, f *ssa.Function, site string, at ssa.Instruction, v ssa.Value, fr *nfFrame, allowed ...string) bool {
+	site = "prov{" + site + "}"
+	if v == nil {
+		c.Undecided(f, site, token.NoPos, "value not found")
+		return false
+	}
+	var all []string
+	bad := ""
+	for _, o := range nfOrigins(v, fr) {
+		s := o.Kind + ":" + o.Desc
+		all = append(all, s)
+		ok := false
+		for _, a := range allowed {
+			if m, _ := regexpMatch(a, s); m {
+				ok = true
+				break
+			}
+		}
+		if !ok && bad == "" {
+			bad = s
+		}
+	}
+	if bad != "" || len(all) == 0 {
+		c.Violation(f, site, at.Pos(), fmt.Sprintf("value may originate from %s; allowed origins: %v; all origins: %v", bad, allowed, all), nil)
+		return false
+	}
+	c.OK(f, site, at.Pos(), fmt.Sprintf("origins %v ⊆ allowed %v", all, allowed))
+	return true
+}
+
+// gcVal is a value together with the frame it lives in.
+type gcVal struct {
+	V  ssa.Value
+	Fr *nfFrame
+}
+
+// gcLitField: the values stored into field `name` of the struct v points to,
+// where v is a literal built in place, a captured / aliased pointer to one, or
+// the result of a closure / same-package helper that returns one (one level).
+func gcLitField(v ssa.Value, fr *nfFrame, name string) []gcVal {
+	var out []gcVal
+	add := func(base ssa.Value, fr *nfFrame) {
+		for _, x := range eng.StructLitField(base, name) {
+			out = append(out, gcVal{x, fr})
+		}
+	}
+	add(v, fr)
+	for _, o := range nfOrigins(v, fr) {
+		switch x := o.Val.(type) {
+		case *ssa.Alloc:
+			if ssa.Value(x) != v {
+				add(x, fr)
+			}
+		case *ssa.Call:
+			if g := nfBody(x, x.Parent()); g != nil {
+				in := &nfFrame{call: x, up: fr}
+				for _, r := range eng.Returns(g) {
+					if len(r.Results) == 1 && nfIsNormalReturn(r) {
+						add(r.Results[0], in)
+						for _, ro := range eng.Origins(r.Results[0]) {
+							if a, ok := ro.Val.(*ssa.Alloc); ok && ssa.Value(a) != r.Results[0] {
+								add(a, in)
+							}
+						}
+					}
+				}
+			}
+		}
+	}
+	return out
+}
+
+// gcFwdVal: v satisfies pred, or v is the result of calling a closure / bound
+// wrapper / same-package function every return of which yields such a value.
+func gcFwdVal(v ssa.Value, pred func(ssa.Value) bool, depth int) bool {
+	if pred(v) {
+		return true
+	}
+	cl, ok := v.(*ssa.Call)
+	if !ok || depth > 2 || cl.Call.IsInvoke() {
+		return false
+	}
+	g, _ := nfFuncValue(cl.Call.Value)
+	if g == nil || len(g.Blocks) == 0 {
+		return false
+	}
+	if g.Parent() == nil && g.Synthetic == "" && (g.Pkg == nil || cl.Parent() == nil || g.Pkg != eng.TopFunc(cl.Parent()).Pkg) {
+		return false
+	}
+	n := 0
+	for _, r := range eng.Returns(g) {
+		if !nfIsNormalReturn(r) {
+			continue
+		}
+		n++
+		if len(r.Results) != 1 || !gcFwdVal(r.Results[0], pred, depth+1) {
+			return false
+		}
+	}
+	return n > 0
+}
+
+// gcFwdCondEdges: the edges of the branches of f whose condition is (the
+// negation of) such a value, on which the value is want.
+func gcFwdCondEdges(f *ssa.Function, pred func(ssa.Value) bool, want bool) []eng.Edge {
+	var out []eng.Edge
+	for _, b := range f.Blocks {
+		ifi := eng.IfOf(b)
+		if ifi == nil {
+			continue
+		}
+		nc := eng.Normalize(ifi.Cond)
+		if !gcFwdVal(nc.Val, pred, 0) {
+			continue
+		}
+		succ := 1
+		if nc.Pol == want {
+			succ = 0
+		}
+		out = append(out, eng.Edge{From: b, Succ: succ})
+	}
+	return out
+}
+
+// gcFieldOfCall: v reads field `field` of the result of a call whose resolved callee matches pat.
+func gcFieldOfCall(pat, field string) func(ssa.Value) bool {
+	return func(v ssa.Value) bool {
+		var base ssa.Value
+		switch x := v.(type) {
+		case *ssa.UnOp:
+			if fa, ok := x.X.(*ssa.FieldAddr); ok && x.Op == token.MUL && eng.FieldVar(fa) != nil && eng.FieldVar(fa).Name() == field {
+				base = fa.X
+			}
+		case *ssa.Field:
+			if fv := eng.FieldVar(x); fv != nil && fv.Name() == field {
+				base = x.X
+			}
+		}
+		cl, ok := base.(*ssa.Call)
+		if !ok {
+			return false
+		}
+		m, _ := regexpMatch(pat, nfCallOf(cl).Name)
+		return m
 	}
 }
